@@ -4,7 +4,7 @@ use crate::engine::*;
 use crate::gens;
 use crate::p03::{interval_strategy, sample_in};
 use crate::spec::*;
-use crate::{ensure, fail};
+use crate::ensure;
 use fidget_core::compiler::RegOp;
 use fidget_core::eval::{BulkEvaluator, Function, MathFunction, Tape, TracingEvaluator};
 use fidget_core::types::{Grad, Interval};
@@ -64,7 +64,7 @@ fn clauses(ops: &[RegOp]) -> Vec<Clause> {
     let mut out_of: HashMap<usize, usize> = HashMap::new(); // value id -> output index
     let mut raw: Vec<(Kind, Result<usize, f32>, Result<usize, f32>)> = vec![];
     for op in ops {
-        let mut define = |reg: u8, d: Def, slot: &mut HashMap<u32, usize>, defs: &mut Vec<Def>| {
+        let define = |reg: u8, d: Def, slot: &mut HashMap<u32, usize>, defs: &mut Vec<Def>| {
             defs.push(d);
             slot.insert(reg as u32, defs.len() - 1);
         };
